@@ -44,6 +44,12 @@ CHECKS['C05'] = dict(
     text='(K) round_quot is interpreted with symbolic quot/rem/divisor for each of the 8 modes (passed as Some(mode) and via None -> default()): on every path the facts established by the kernel\'s own branches must determine the increment prescribed by the mode table, and the returned term is quot + that increment; (F),(R) likewise for the floor-division helper and i128_div_rounded over sign cells of the divisor. round/checked_round: per (p, n) cell - quick: boundary n values, thorough: all 19 x 256 - the value is unchanged for n >= p, Rnd(x/10^(p-n)) [x 10^-n] at scale max(n,0), failure only as overflow of that product, checked_round never panics; for p-n >= 39 every (mode, sign of x) class is checked against RoundSpec with the helpers inlined.',
     note=TB + 'mode semantics as tabulated in DESIGN.md Appendix A.1; the defect found here (far-below-half values rounded to zero under directed modes) is repaired by a fix: commit.')
 
+CHECKS['C16'] = dict(
+    category='proof', design_ref='DESIGN.md section 5 C16, section 3.4 (summaries S, W, contract U)',
+    technique=ABSINT + '; assume/guarantee: the unsigned multiword kernels are replaced by their contract U',
+    text='CLAUSE decided: the signed wrappers i128_shifted_div_mod_floor / i256_div_mod_floor and the wide rounding helpers, for every shift 0..=38 (thorough; quick: boundary shifts), every sign combination and all 8 modes (both via Some(mode) and the thread default): Some((q,r)) paths satisfy q*m + r = a*10^k (a*b) as polynomials with 0 <= r < m - including exact divisions; None paths imply that the quotient does not fit i128; the rounded helpers equal RoundSpec(mode, N/D) and have no panic edge. NOT decided: the schoolbook multiplication and Knuth-D division themselves (contract U is assumed and printed in the evidence).',
+    note=TB + 'CONTRACT U for u128_mul_u128 / u256_idiv_u128 (assumed). Two defects found by this check (exact negative quotients; quot+1 overflow at i128::MAX) are repaired by fix: commits.')
+
 NOT_APPLICABLE = {
     'C07': 'Display/parse round trip is a value-level property of run-time digit strings across two algorithms (core::fmt and a byte parser); no structural clause that is both necessary and checkable without executing or symbolically solving; see DESIGN.md section 7.',
     'C12': 'Bit-exact float rounding of Decimal -> f64/f32 over 2^127 x 19 inputs: no sound static abstract domain in reach relates the produced bit pattern to the nearest float; see DESIGN.md section 7.',
